@@ -91,6 +91,19 @@ fn directed_asts() -> Vec<(RangeAst, Spelling)> {
     add(vec![Alt::Set(vec![Tok::Garbage("~1.y".into()), Tok::Cmp(Op::Bare, p3(1, 2, 3))])]);
     add(vec![Alt::Set(vec![Tok::Garbage("-".into()), Tok::Cmp(Op::Bare, p1(10))])]); // loose " - 10"
     add(vec![Alt::Set(vec![Tok::Garbage("foo".into())])]);
+    // texts that only look like hyphen ranges: `1 -2` is `1`, `1- 2` is `2`, `1 - 2foo` is `1`
+    add(vec![Alt::Set(vec![Tok::Cmp(Op::Bare, p1(1)), Tok::Garbage("-2".into())])]);
+    add(vec![Alt::Set(vec![Tok::Garbage("1-".into()), Tok::Cmp(Op::Bare, p1(2))])]);
+    add(vec![Alt::Set(vec![Tok::Cmp(Op::Bare, p1(1)), Tok::Garbage("-".into()), Tok::Garbage("2foo".into())])]);
+    add(vec![Alt::Set(vec![Tok::Cmp(Op::Bare, p3(1, 2, 3)), Tok::Garbage("-".into()), Tok::Garbage("2.3.4.5".into())])]);
+    add(vec![Alt::Set(vec![Tok::Cmp(Op::Bare, p1(1)), Tok::Garbage("-".into())])]);
+    // every garbage token next to a valid comparator, both orders, and alone in an alternative
+    for g in GARBAGE {
+        add(vec![Alt::Set(vec![Tok::Garbage(g.to_string()), Tok::Cmp(Op::Ge, p3(1, 2, 3))])]);
+        add(vec![Alt::Set(vec![Tok::Cmp(Op::Ge, p3(1, 2, 3)), Tok::Garbage(g.to_string())])]);
+        add(vec![Alt::Set(vec![Tok::Cmp(Op::Bare, p3(1, 2, 3))]), Alt::Set(vec![Tok::Garbage(g.to_string())])]);
+        add(vec![Alt::Set(vec![Tok::Garbage(g.to_string())])]);
+    }
     // loose " - 10" with a leading blank: npm drops the lone "-" and reads "10"
     for p in [p1(10), p2(1, 2), p3(1, 2, 3), p3p(1, 2, 3, "rc.1")] {
         v.push((RangeAst { alts: vec![Alt::Set(vec![Tok::Garbage("-".into()), Tok::Cmp(Op::Bare, p)])] }, Spelling { lead_blank: 1, ..Spelling::plain() }));
